@@ -336,9 +336,21 @@ def main():
 
     # ------------------------------------------------------------------ unary helpers, deep enumeration
     deep = LONG + RAND
-    # ReadLine
-    lines = ["6|" + toks(s) for s in deep]
-    for s, ln, r in zip(deep, lines, both(lines, "ReadLine")):
+    # ReadLine: short streams exhaustively, plus long lines around bufio's 4096-byte buffer and streams much longer
+    # than it (the returned lines are kept by the driver WITHOUT copying and printed only at the end, so a line
+    # that aliases the reader's buffer shows up as corrupted)
+    rl_long = []
+    for n in (4094, 4095, 4096, 4097, 8191, 8192, 8193, 20000):
+        rl_long.append([97 + (i % 23) for i in range(n)] + [10] + [66, 67, 13, 10] + [68])
+        rl_long.append([97 + (i % 23) for i in range(n)])                                      # no terminator at all
+    for _ in range(6):
+        st = []
+        for _ in range(rng.randrange(150, 400)):
+            st += [rng.choice([65, 66, 32, 13, 0xA4, 0x40, 49]) for _ in range(rng.randrange(0, 120))] + rng.choice([[10], [13, 10]])
+        rl_long.append(st)
+    rl_streams = deep + [tuple(x) for x in rl_long]
+    lines = ["6|" + toks(s) for s in rl_streams]
+    for s, ln, r in zip(rl_streams, lines, both(lines, "ReadLine")):
         ref = ref_lines(s)
         if bad_status("types.ReadLine", ln, r, "readline-empty-line" if any(len(l) == 0 for l in ref) else "readline-crash"):
             continue
